@@ -326,6 +326,14 @@ where
 {
     fn test_filter(&self, dataset: &ResultItem<'store, AnnotationDataSet>) -> bool {
         match &self.filter {
+            Filter::AnnotationDataSet(handle, _) => dataset.handle() == *handle,
+            Filter::DataSets(datasets, FilterMode::Any, _) => {
+                datasets.contains(&dataset.fullhandle())
+            }
+            Filter::BorrowedDataSets(datasets, FilterMode::Any, _) => {
+                datasets.contains(&dataset.fullhandle())
+            }
+            Filter::AnnotationData(set_handle, _, _) => dataset.handle() == *set_handle,
             Filter::DataSets(_, FilterMode::All, _) => {
                 unreachable!("not handled by this iterator but by FilterAllIter")
             }
